@@ -238,6 +238,29 @@ def check_svg(segs, closed):
                 return "SVG command %s where %s expected" % (a, b)
         elif not re.fullmatch(r"-?\d+\.\d{6}", a) or abs(F(a) - F(b)) > F(1, 2 * 10 ** 6) + F(1, 10 ** 12):
             return "SVG number %s is not %r to six decimal places" % (a, b)
+    # the string describes the path as it is NOW: flip the closed flag, move a control point through the segment list, add a segment to
+    # the list — each time the string must be the string of a freshly built path with the same segments and flag
+    from beziers.point import Point
+    first = p.asSVGPath()
+    p.closed = not p.closed
+    if p.asSVGPath() != oc.path_from(segs, not closed).asSVGPath():
+        return "after flipping closed to %r on a path whose SVG string had been asked for, asSVGPath gives %r" % (p.closed, p.asSVGPath()[-40:])
+    p.closed = closed
+    sl = p.asSegments()
+    j = len(sl) // 2
+    k = len(sl[j].points) - 1 if j + 1 < len(sl) or len(sl[j].points) > 2 else 0
+    k = max(1, k) if len(sl[j].points) > 2 else k
+    if len(sl[j].points) > 2:
+        sl[j][1] = Point(sl[j][1].x + 3.0, sl[j][1].y - 2.0)      # an off-curve point: the chain stays connected
+        now = [[(q.x, q.y) for q in s.points] for s in sl]
+        if p.asSVGPath() != oc.path_from(now, closed).asSVGPath():
+            return "after moving a control point of segment %d in the path's segment list, asSVGPath still gives the old string" % j
+    p.asSVGPath()
+    tail = sl[-1].end
+    sl.append(oc.mkseg([(tail.x, tail.y), (tail.x + 7.0, tail.y + 11.0)]))
+    now = [[(q.x, q.y) for q in s.points] for s in sl]
+    if p.asSVGPath() != oc.path_from(now, closed).asSVGPath():
+        return "after appending a segment to the path's segment list, asSVGPath still gives the old string"
     return None
 
 
